@@ -517,7 +517,7 @@ impl Accept {
     requires
         old(self).next < old(self).handles@.len(),
     ensures
-        final(self).next == (old(self).next + 1) % (old(self).handles@.len() as int),   // [C04]
+        final(self).next == (old(self).next + 1) % (old(self).handles@.len() as int),   // [C04,C08] the cursor visits every position in turn: a replacement appended to the list rejoins the rotation
         final(self).handles == old(self).handles,
         final(self).avail == old(self).avail,
         final(self).srv == old(self).srv,
